@@ -180,10 +180,17 @@ pub struct Peer {
 }
 
 impl Peer {
-    pub async fn new(idx: usize, rng: &mut Rng) -> Peer {
+    /// `rotate`: the peer rotates its pre-key on every `key_bundle_message()` (rotation window far
+    /// beyond the lifetime, as in the crate's own rotation test), so successive key-bundle
+    /// messages of that author carry distinct bundles.
+    pub async fn new(idx: usize, rng: &mut Rng, rotate: bool) -> Peer {
         let crng = CryptoRng::from_seed(rng.array32());
         let credentials = Credentials::from_rng(&crng).expect("credentials");
-        let tp = TestPeer::new_with_config(idx as u8, credentials, &Config::default(), crng).await;
+        let mut config = Config::default();
+        if rotate {
+            config.pre_key_rotate_after = Duration::from_secs(60 * 60 * 24 * 1024);
+        }
+        let tp = TestPeer::new_with_config(idx as u8, credentials, &config, crng).await;
         let sstore = TestSpacesStore::new(tp.store.clone());
         Peer {
             idx,
@@ -569,16 +576,9 @@ pub fn judge_redelivery(
 ) {
     let k = kind(args_of(msg));
     let sub = action_kind(args_of(msg)).map(|s| format!(":{s}")).unwrap_or_default();
-    let (changed_all, reordered) = diff(before, after);
-    // The statement speaks about group and space state. Key material (registry of received key
-    // bundles, own pre-key secrets) is recorded, not judged.
-    let (unjudged, changed): (Vec<String>, Vec<String>) = changed_all
-        .into_iter()
-        .partition(|c| c.starts_with("key_registry") || c.starts_with("prekey_secrets"));
-    if !unjudged.is_empty() {
-        j.res.bump("redelivery_changed_key_material_not_judged", 1);
-        j.res.bump(&format!("redelivery_changed_key_material_not_judged.{k}"), 1);
-    }
+    // All persisted state is judged, the key registry and the pre-key secrets included (the spaces
+    // state is assembled from them on every load).
+    let (changed, reordered) = diff(before, after);
     j.res.bump("redeliveries_judged", 1);
     j.res.bump(&format!("redeliveries_judged.{k}"), 1);
     if self_authored {
@@ -591,7 +591,7 @@ pub fn judge_redelivery(
         "seed": j.seed, "case": j.case, "stage": j.stage, "peer": peer_idx,
         "replay": replay_hint(j.seed, j.stage, j.case),
         "self_authored": self_authored, "message": describe(msg), "context": context,
-        "second_outcome": out.brief(), "changed_key_material_not_judged": unjudged,
+        "second_outcome": out.brief(),
     });
     if !changed.is_empty() {
         let mut w = base.clone();
